@@ -108,7 +108,22 @@ def r2_opacity_flags(ck, P):
                 for b in f.blocks:
                     t = b.term
                     if t.op == 'br' and t.a and ('field', 'radial_gradient.a') in f.atoms(t.a[0]):
-                        radial_ok = True
+                        # exact predicate: the opacity code is reached from the radial case only when a < 0 (one circle strictly inside
+                        # the other); with a == 0 half the plane has no admissible t and is painted transparent
+                        cc = f.v(t.a[0])
+                        if cc is not None and cc.op in ('icmp', 'fcmp') and len(cc.a) == 2 and cc.a[1][0] in ('c', 'fc') and float(cc.a[1][1]) in (0.0, -1.0):
+                            k_ = float(cc.a[1][1]); pr_ = cc.d['p']
+                            if cc.op == 'fcmp':
+                                pr_ = {'oge': 'sge', 'uge': 'sge', 'ogt': 'sgt', 'ugt': 'sgt', 'olt': 'slt', 'ult': 'slt', 'ole': 'sle', 'ule': 'sle', 'oeq': 'eq', 'ueq': 'eq', 'one': 'ne', 'une': 'ne'}.get(pr_, pr_)
+                            for s_ in t.d['succ']:
+                                if x.bb.id == s_ or x.bb.id in f.reachable_blocks(s_, avoid={b.id}):
+                                    taken = t.d['succ'][0] == s_
+                                    # truth of the comparison at a == 0 and at a == -1 on the edge that leads to the flag
+                                    def holds(a_):
+                                        v_ = {'slt': a_ < k_, 'sle': a_ <= k_, 'sgt': a_ > k_, 'sge': a_ >= k_, 'eq': a_ == k_, 'ne': a_ != k_}.get(pr_)
+                                        return None if v_ is None else (v_ == taken)
+                                    if holds(0) is False and holds(-1) is True and holds(1) is False:
+                                        radial_ok = True
                 if loop_ok and radial_ok:
                     ck.ok(R, where + ': gradient IS_OPAQUE under repeat != NONE, all stops opaque, radial a < 0')
                 else:
